@@ -153,6 +153,7 @@ type vDocSpec struct {
 	Rels   map[string][]interface{} // relation -> items: string (reference) or vVMSpec (embedded)
 	Svcs   []vSvcSpec
 	RawAdd map[string]interface{} // extra top-level members (to break things)
+	NullVM bool                   // a JSON null as last entry of verificationMethod
 }
 
 var vRelNames = []string{"authentication", "assertionMethod", "keyAgreement", "capabilityInvocation", "capabilityDelegation"}
@@ -206,6 +207,7 @@ func (s vDocSpec) clone() vDocSpec {
 		c.Rels[k] = append([]interface{}(nil), v...)
 	}
 	c.RawAdd = nil
+	c.NullVM = false
 	return c
 }
 
@@ -232,6 +234,8 @@ func (s vDocSpec) payload() []byte {
 				l = append(l, x)
 			case vVMSpec:
 				l = append(l, x.json(s.ID))
+			case nil:
+				l = append(l, nil)
 			}
 		}
 		if len(l) > 0 {
@@ -251,6 +255,10 @@ func (s vDocSpec) payload() []byte {
 			l = append(l, e)
 		}
 		m["service"] = l
+	}
+	if s.NullVM {
+		l, _ := m["verificationMethod"].([]interface{})
+		m["verificationMethod"] = append(l, nil)
 	}
 	for k, v := range s.RawAdd {
 		m[k] = v
@@ -316,6 +324,8 @@ type vNDoc struct {
 	Contexts     []string `json:"contexts"`
 	Controllers  []string `json:"controllers"`
 	CtrlEmptyAny bool     `json:"ctrlEmptyAny,omitempty"`
+	VMNull       bool     `json:"vmNull,omitempty"`  // verificationMethod holds a nil entry (JSON null)
+	RelNull      bool     `json:"relNull,omitempty"` // a relationship without verification method (JSON null)
 	VMs          []vNVM   `json:"vms"`
 	Auth         []vNVM   `json:"auth"`
 	Assertion    []vNVM   `json:"assertion"`
@@ -386,11 +396,19 @@ func vView(d did.Document) vNDoc {
 		}
 	}
 	for _, vm := range d.VerificationMethod {
+		if vm == nil {
+			n.VMNull = true
+			continue
+		}
 		n.VMs = append(n.VMs, vViewVM(vm))
 	}
 	rel := func(rs did.VerificationRelationships) []vNVM {
 		out := []vNVM{}
 		for _, r := range rs {
+			if r.VerificationMethod == nil {
+				n.RelNull = true
+				continue
+			}
 			out = append(out, vViewVM(r.VerificationMethod))
 		}
 		return out
@@ -659,6 +677,12 @@ func vValidateClass(msg string) string {
 			return "validate:w3c:" + c
 		}
 		return "validate:w3c:other(" + rest + ")"
+	}
+	if strings.HasSuffix(msg, "invalid verificationMethod: null entry") {
+		return "validate:nil:verificationMethod"
+	}
+	if strings.HasSuffix(msg, "invalid verification relationship: null entry") {
+		return "validate:nil:relationship"
 	}
 	kind := ""
 	switch {
@@ -1220,7 +1244,13 @@ func vActive(d *vDid) bool {
 
 // ordinary edits of a document
 func (g *vGen) randomEdit(s *vDocSpec) {
-	switch g.rng.Intn(8) {
+	switch g.rng.Intn(9) {
+	case 8: // a well-formed key whose `controller` member names another DID (allowed: only the id is bound to the document)
+		k := g.freshKey()
+		id := s.ID + "#" + k.b64
+		o := "did:nuts:" + g.keys[0].b58
+		s.VMs = append(s.VMs, vVMSpec{ID: id, Key: k, Ctrl: o})
+		s.Rels["assertionMethod"] = append(s.Rels["assertionMethod"], id)
 	case 6: // a well-formed key under another type name that go-did also reads from publicKeyJwk, listed for capabilityInvocation
 		k := g.freshKey()
 		id := s.ID + "#" + k.b64
@@ -1321,7 +1351,7 @@ var vViolations = []string{"no-did-context", "vm-no-fragment", "vm-duplicate-id"
 	"vm-no-jwk", "vm-empty-key-fragment", "ctx-only-object", "vm-kid-in-jwk", "vm-keyswap-known-id", "vm-known-id-other-did",
 	"vm-prefix-extension", "vm-prefix-truncated", "svc-prefix-extension", "svc-prefix-truncated",
 	"vm-secp-type-thumbprint-mismatch", "vm-unknown-type-thumbprint-mismatch", "vm-ed25519-type-jwk-mismatch", "vm-ed25519-base58-no-jwk",
-	"vm-keyswap-known-id-other-type"}
+	"vm-keyswap-known-id-other-type", "vm-foreign-prefix-and-controller", "vm-foreign-prefix-and-controller-capinv", "vm-known-did-prefix-and-controller", "vm-null-entry", "rel-null-entry", "rel-empty-string-entry"}
 
 func (g *vGen) violate(which string, s *vDocSpec) {
 	other := "did:nuts:" + g.keys[0].b58
@@ -1401,6 +1431,31 @@ func (g *vGen) violate(which string, s *vDocSpec) {
 			s.VMs[i].Key = g.freshKey()
 			s.VMs[i].Type = "EcdsaSecp256k1VerificationKey2019"
 		}
+	case "vm-null-entry": // a JSON null in verificationMethod (no references: go-did's parser dereferences the entries when it resolves one)
+		s.NullVM = true
+		s.Rels = map[string][]interface{}{}
+		if len(s.Ctrl) == 0 {
+			s.Ctrl = []string{s.ID}
+		}
+	case "rel-empty-string-entry":
+		s.Rels["authentication"] = append(s.Rels["authentication"], "")
+	case "rel-null-entry":
+		s.Rels["keyAgreement"] = append(s.Rels["keyAgreement"], nil)
+	case "vm-foreign-prefix-and-controller": // id AND controller name another DID; the fragment is the key's thumbprint
+		k := g.freshKey()
+		s.VMs = append(s.VMs, vVMSpec{ID: other + "#" + k.b64, Key: k, Ctrl: other})
+	case "vm-foreign-prefix-and-controller-capinv": // ... and it is listed for capabilityInvocation
+		k := g.freshKey()
+		id := other + "#" + k.b64
+		s.VMs = append(s.VMs, vVMSpec{ID: id, Key: k, Ctrl: other})
+		s.Rels["capabilityInvocation"] = append(s.Rels["capabilityInvocation"], id)
+	case "vm-known-did-prefix-and-controller": // id and controller name an existing other DID of the history
+		k := g.freshKey()
+		o := other
+		if d := g.someDid(func(d *vDid) bool { return d.latest().spec.ID != s.ID }); d != nil {
+			o = d.latest().spec.ID
+		}
+		s.VMs = append(s.VMs, vVMSpec{ID: o + "#" + k.b64, Key: k, Ctrl: o})
 	case "vm-prefix-extension": // the id's DID merely starts with the document's DID
 		k := g.freshKey()
 		s.VMs = append(s.VMs, vVMSpec{ID: s.ID + "x#" + k.b64, Key: k})
@@ -1779,7 +1834,26 @@ func (r *vRunner) newNode() *vNode {
 	return vNewNode(r.t, r.ctrl, filepath.Join(r.out, fmt.Sprintf("c09-%d.db", r.dbN)))
 }
 
-func vParsePayload(b []byte) *vNDoc {
+func vParsePayload(b []byte) (out *vNDoc) {
+	defer func() {
+		if r := recover(); r != nil {
+			out = nil
+		}
+	}()
+	// the callback refuses null / empty-string entries in the key arrays before unmarshalling (same outcome class as a
+	// payload that does not unmarshal); found here by an own scan of the generic JSON
+	var generic map[string]interface{}
+	if json.Unmarshal(b, &generic) == nil {
+		for _, name := range []string{"verificationMethod", "authentication", "assertionMethod", "keyAgreement", "capabilityInvocation", "capabilityDelegation"} {
+			if l, ok := generic[name].([]interface{}); ok {
+				for _, e := range l {
+					if e == nil || e == "" {
+						return nil
+					}
+				}
+			}
+		}
+	}
 	var d did.Document
 	if err := json.Unmarshal(b, &d); err != nil {
 		return nil
